@@ -40,7 +40,7 @@ META = {
             "refutes it for the step structure of the pinned code; every complete interleaving of that step structure is then forced "
             "onto the real ZoneStore::resolve / ZoneStore::insert with pause points, and TLC evaluates the same invariant on the "
             "logged starts, answers and acknowledgements of every execution.",
-    "note": "One key; <= 2 concurrent lookups + 1 follow-up lookup, <= 2 concurrent publishes, distinct and equal timestamps, cold and warm "
+    "note": "One key, and one scenario with a publish for a second key; <= 2 concurrent lookups + 1 follow-up lookup, <= 2 concurrent publishes, distinct and equal timestamps, cold and warm "
             "cache (quick: 2 lookups x 1 publish exhaustively, 1 lookup x 2 publishes exhaustively; thorough adds sampled 2 x 2 and 3 x 1).  "
             "'Acknowledged' = ZoneStore::insert returned Ok(true) (the HTTP 204 comes later).  The store actor is trusted to be "
             "linearizable (Get / Upsert are handled one at a time).",
@@ -53,15 +53,18 @@ R3 = '{"r1", "r2", "r3"}'
 P1 = '{"p1"}'
 P2 = '{"p1", "p2"}'
 # (scenario, resolvers, publishers, warm cache, mode)
+# scenario "ab": lookups for key a, publisher p1 for key a, publisher p2 for ANOTHER key b
 QUICK = [("p1", R2, P1, "FALSE", "gen"), ("p1", R2, P1, "TRUE", "gen"), ("p1eq", R2, P1, "FALSE", "gen"),
-         ("p2", R1, P2, "FALSE", "gen"), ("p2eq", R1, P2, "TRUE", "gen")]
+         ("p2", R1, P2, "FALSE", "gen"), ("p2eq", R1, P2, "TRUE", "gen"), ("ab", R1, P2, "FALSE", "gen")]
 THOROUGH = QUICK + [("p2old", R1, P2, "FALSE", "gen"), ("p2", R2, P2, "FALSE", "sim"), ("p2eq", R2, P2, "FALSE", "sim"),
-                    ("p2old", R2, P2, "TRUE", "sim"), ("p1", R3, P1, "FALSE", "sim"), ("p1eq", R3, P1, "TRUE", "sim")]
+                    ("p2old", R2, P2, "TRUE", "sim"), ("p1", R3, P1, "FALSE", "sim"), ("p1eq", R3, P1, "TRUE", "sim"),
+                    ("ab", R2, P2, "FALSE", "sim"), ("ab", R1, P2, "TRUE", "gen")]
 ACTIONS = ["RCheck", "RGet", "RFill", "PUpsert", "PInval", "PAck"]
 
 
 def consts(design, sc, rs, ps, warm):
-    return {"Design": '"%s"' % design, "Scenario": '"%s"' % sc, "Resolvers": rs, "Publishers": ps, "WarmCache": warm}
+    return {"Design": '"%s"' % design, "Scenario": '"%s"' % sc, "Resolvers": rs, "Publishers": ps, "WarmCache": warm,
+            "Keys": '{"a", "b"}' if sc == "ab" else '{"a"}'}
 
 
 def wkey(case):
@@ -74,13 +77,16 @@ def run(ctx):
         execute(ctx, [rep], "replay")
         return
     # 1. the two repaired designs satisfy C38, the pinned step structure does not
-    mc = (("p2eq", R2, P2, "FALSE"), ("p1eq", R2, P1, "TRUE")) + ctx.pick((), (
+    mc = (("p2eq", R2, P2, "FALSE"), ("p1eq", R2, P1, "TRUE"), ("ab", R2, P2, "FALSE")) + ctx.pick((), (
         ("p2eq", R2, P2, "TRUE"), ("p1eq", R2, P1, "FALSE"), ("p2", R2, P2, "FALSE"), ("p2old", R2, P2, "FALSE"), ("p1", R3, P1, "FALSE")))
     for design in ("lock", "gen"):
         for sc, rs, ps, warm in mc:
             ctx.tlc("dnsserver", "MC_DnsCache", cfg="DnsCache_mc.cfg", mode="mc", constants=consts(design, sc, rs, ps, warm),
                     require_actions=ACTIONS if warm == "FALSE" else ["RCheck", "PUpsert", "PInval", "PAck"], workers=2)
     ctx.tlc("dnsserver", "MC_DnsCache", cfg="DnsCache_refute.cfg", mode="mc", constants=consts("aswritten", "p1", R2, P1, "FALSE"),
+            expect_violation="NoStaleAnswer", workers=2)
+    # "remember only the key of the last invalidation" is refuted as soon as publishes for two keys interleave
+    ctx.tlc("dnsserver", "MC_DnsCache", cfg="DnsCache_refute.cfg", mode="mc", constants=consts("genlast", "ab", R2, P2, "FALSE"),
             expect_violation="NoStaleAnswer", workers=2)
     # 2. words of the as-written step structure, forced onto the real code
     scenarios = ctx.pick(QUICK, THOROUGH)
@@ -99,13 +105,13 @@ def run(ctx):
             cases += list(words.values())
         return cases
 
-    st = execute(ctx, words_of("aswritten"), "aswritten")
+    # the repair in /repo is the 'gen' design: its words first; if the code does not follow it, the as-written words
+    st = execute(ctx, words_of("gen"), "gen")
     if st["diverged"] or st["matched"] != st["judged"]:
-        # the code does not follow the as-written model (a repair?): it must then follow the 'gen' design on that design's words
-        ctx.log("observations differ from the as-written model (%s); trying the 'gen' design" % st)
-        st2 = execute(ctx, words_of("gen"), "gen")
+        ctx.log("observations differ from the 'gen' design (%s); trying the as-written model" % st)
+        st2 = execute(ctx, words_of("aswritten"), "aswritten")
         if (st2["diverged"] or st2["matched"] != st2["judged"]) and not (st["blocked"] or st2["blocked"]) and not ctx.violations:
-            raise ToolError("spec drift / binding broken: the real calls follow neither the as-written model (%s) nor the 'gen' design (%s)"
+            raise ToolError("spec drift / binding broken: the real calls follow neither the 'gen' design (%s) nor the as-written model (%s)"
                             % (st, st2))
     ctx.cov["rule"] = ("every complete interleaving of the as-written step structure for the listed scenarios (exhaustive in the quick "
                        "tier; thorough adds seeded samples of the larger ones); non-trivial = some publish step lies between the first "
@@ -114,14 +120,15 @@ def run(ctx):
     ctx.assume("pause points sit exactly between the critical sections named in DnsCache.tla (checked: every word runs without divergence)")
 
 
-def classify(case, stale_answer, verof):
+def classify(case, stale_answer, verof, key="a"):
     """Schedule class of a stale answer (for the known-finding signature)."""
     pos = {(s["p"], s["a"]): i for i, s in enumerate(case["word"])}
+    pkey = case.get("pkey", {})
     for (f, a), i_get in pos.items():
         if a != "RGet" or (f, "RFill") not in pos:
             continue
         for p, v in verof.items():
-            if v > stale_answer and (p, "PUpsert") in pos and (p, "PInval") in pos:
+            if pkey.get(p, "a") == key and v > stale_answer and (p, "PUpsert") in pos and (p, "PInval") in pos:
                 if i_get < pos[(p, "PUpsert")] and pos[(p, "PInval")] < pos[(f, "RFill")]:
                     return "get_before_upsert_fill_after_invalidate"
     return "no_racing_fill"
@@ -175,7 +182,10 @@ def execute(ctx, cases, tag):
             ctx.sample({"word": ["%s.%s" % w for w in word], "warm": c["warm"], "tsof": c["tsof"], "answers": o["answers"],
                         "flags": o["flags"], "stale": [[v["r"], v["ans"], v["demanded"]] for v in stale]})
         for v in stale:
-            sched = classify(c, v["ans"], c["verof"])
+            rk = c.get("rkey", {}).get(v["r"]) or (v["r"][2:] if v["r"].startswith("rf") else "a")
+            sched = classify(c, v["ans"], c["verof"], rk)
+            if sched != "no_racing_fill" and len(set(c.get("pkey", {}).values())) > 1:
+                sched += "_other_key_published_between"
             ctx.report({"kind": "stale_answer", "schedule": sched, "served_from": "cache" if v["ans"] != 0 else "nothing"},
                        "lookup %s started after version %d was acknowledged but answered version %d; word %s (warm=%s, tsof=%s)"
                        % (v["r"], v["demanded"], v["ans"], " ".join("%s.%s" % w for w in word), c["warm"], c["tsof"]), c)
@@ -184,7 +194,7 @@ def execute(ctx, cases, tag):
             if agrees(o, c):
                 matched += 1
     st = {"words": len(cases), "judged": judged, "matched": matched, "blocked": blocked, "diverged": len(diverged)}
-    if not ctx.quick and tag == "aswritten":
+    if not ctx.quick and tag == "gen":
         selftest(ctx, obs, verdicts)
     ctx.log("c38 %s: %s" % (tag, st))
     ctx.cov.setdefault("conformance", {})[tag] = st
